@@ -207,6 +207,18 @@ def ingest(nf, hists, drop_full_nan, interleave=True):
         return e
 
 
+def reloaded_parameters(ip, ext):
+    """The individual parameters written to a file of the given kind and read back (what a user keeps between two sessions)."""
+    import tempfile
+
+    from leaspy.io.outputs import IndividualParameters as _IP
+
+    with tempfile.TemporaryDirectory(dir="/var/tmp") as tmp:
+        path = os.path.join(tmp, "ip." + ext)
+        ip.save(path)
+        return _IP.load(path)
+
+
 def check_constant(nf, hists, ptype, drop_full_nan, forms, interleave=True, request=None, data=None):
     """Run ONE cohort (list of histories) through ConstantModel.personalize / estimate.
 
@@ -274,6 +286,25 @@ def check_constant(nf, hists, ptype, drop_full_nan, forms, interleave=True, requ
                 problems.append((i, f"constant.estimate|value mismatch|{ptype}", f"prediction is not the '{ptype}' value at every requested age ({form} request)",
                                  refs[i], arr.tolist()))
                 bad.add(i)
+    # ---- the same individual parameters after a trip through a file (JSON, CSV): same predictions, same layout
+    if present and "list" in forms and len(hists) <= 2:
+        req = {ids[i]: list(request) for i in present}
+        try:
+            base = model.estimate(req, ip)
+        except Exception:  # noqa: BLE001 - already reported above
+            base = None
+        for ext in ("json", "csv") if base is not None else ():
+            try:
+                est2 = model.estimate(req, reloaded_parameters(ip, ext))
+            except Exception as e:  # noqa: BLE001
+                problems.append((present[0], f"constant.estimate|{type(e).__name__}|individual parameters read back from a {ext} file", f"{type(e).__name__}: {e}", None, None))
+                continue
+            for i in present:
+                a, b = np.asarray(base[ids[i]]), np.asarray(est2[ids[i]])
+                if a.shape != b.shape or not np.array_equal(a, b, equal_nan=True):
+                    problems.append((i, f"constant.estimate|prediction differs|individual parameters read back from a {ext} file",
+                                     f"shape {list(b.shape)} instead of {list(a.shape)}" if a.shape != b.shape else "values differ", a.tolist(), b.tolist()))
+                    break
     for i, r in enumerate(refs):
         outcomes[i] = "const:absent(no visit kept)" if r is None else f"const:{ptype}:{_pattern(r)}"
     return outcomes, problems
@@ -790,6 +821,18 @@ def check_lme(k, cfg):
     except Exception as e:  # noqa: BLE001
         problems.append((f"lme.estimate|{type(e).__name__}|{tag}", f"{type(e).__name__}: {e}", None, None))
         return None, False, problems, info
+    # the same individual parameters after a trip through a file (JSON, CSV): same trajectories
+    for ext in ("json", "csv"):
+        try:
+            est2 = model.estimate(req, reloaded_parameters(ip, ext))
+        except Exception as e:  # noqa: BLE001
+            problems.append((f"lme.estimate|{type(e).__name__}|individual parameters read back from a {ext} file", f"{type(e).__name__}: {e}", None, None))
+            continue
+        for s in subjects:
+            a, b = np.asarray(est[s], dtype=float), np.asarray(est2[s], dtype=float)
+            if a.shape != b.shape or not np.all(np.abs(a - b) <= 1e-6 * (1 + np.abs(a))):
+                problems.append((f"lme.estimate|trajectory differs|individual parameters read back from a {ext} file", s, a.tolist(), b.tolist()))
+                break
     for s in subjects:
         if s not in b_of:
             continue
